@@ -218,6 +218,15 @@ pub fn lane_random_from(tier: Tier, seed: u64, start: usize, n: usize, tag: &str
                     if !cram && g.chance(10) {
                         d.defaults.skip_code = Some(*g.pick(&[33i32, 80, 3]));
                     }
+                    if !cram && g.chance(10) {
+                        d.defaults.keep_crlf = Some(g.chance(70));
+                    }
+                    if !cram && g.chance(30) {
+                        d.loose_front_matter = true;
+                    }
+                    if !cram && g.chance(25) {
+                        d.fence_trailing_space = true;
+                    }
                     n_procs += if script { 1 } else { d.tests.len() as u32 };
                     // shared set-up / tear-down documents
                     if !cram && !script && g.chance(20) {
@@ -819,6 +828,11 @@ pub fn lane_env(seed: u64) -> Vec<Scenario> {
                     cli.work_directory = dirmode == "work";
                     cli.keep_tmp = dirmode == "keep";
                     cli.relative_paths = g.chance(50);
+                    if g.chance(50) {
+                        for d in docs.iter_mut().filter(|d| d.format == Format::Md) {
+                            d.loose_front_matter = true;
+                        }
+                    }
                     // a second scrut instance creates (and sometimes removes) look-alike directories
                     if g.chance(50) {
                         let base = if cli.work_directory && g.chance(50) { "$WORK" } else { "$TMP" };
@@ -895,7 +909,7 @@ pub fn lane_runs(seed: u64) -> Vec<Scenario> {
     let mut g = G::new(seed ^ 0x2077);
     let outcomes = outcome_plans();
     for (oname, plans, faults) in &outcomes {
-        for layout in ["front-prepend-append", "cli-prepend", "cli-append", "front-and-cli-unsorted", "three-docs-mixed", "cram-only"] {
+        for layout in ["front-prepend-append", "cli-prepend", "cli-append", "front-and-cli-unsorted", "empty-main", "cram-then-md", "three-docs-mixed", "cram-only"] {
             let needs_md = plans.iter().any(|p| p.cfg != TestCfg::default() || p.fate == Fate::Detached);
             if needs_md && (layout == "cram-only") {
                 continue;
@@ -940,6 +954,24 @@ pub fn lane_runs(seed: u64) -> Vec<Scenario> {
                     }
                     docs.push(main);
                     docs.extend(others);
+                }
+                "empty-main" => {
+                    // a document without test cases of its own (prose only) still runs what it
+                    // prepends and appends
+                    let mut main = mk(&mut g, &mut sim, "e/readme.md", Format::Md, &[]);
+                    let mut a = mk(&mut g, &mut sim, "e/setup.md", Format::Md, plans);
+                    let mut c = mk(&mut g, &mut sim, "shared/teardown.md", Format::Md, &pass2);
+                    a.main = false;
+                    c.main = false;
+                    main.prepend = vec!["setup.md".into()];
+                    cli.append = vec!["shared/teardown.md".into()];
+                    docs.extend([main, a, c]);
+                }
+                "cram-then-md" => {
+                    // the single-script mode of the first document must not stick to the second
+                    docs.push(mk(&mut g, &mut sim, "o/a-first.t", Format::Cram, &pass2));
+                    docs.push(mk(&mut g, &mut sim, "o/b-second.md", Format::Md, plans));
+                    docs.push(mk(&mut g, &mut sim, "o/c-third.t", Format::Cram, &pass2[..1]));
                 }
                 "cli-prepend" | "cli-append" => {
                     let main = mk(&mut g, &mut sim, "r/main.md", Format::Md, plans);
@@ -1553,6 +1585,58 @@ pub fn lane_cli_report_bytes(seed: u64) -> Vec<Scenario> {
             }
         }
     }
+    // single-script mode has ONE configuration: a later test case with its own stream / CR LF
+    // setting must not silently run under the first one's (refusing the document is fine)
+    for which in ["stream-stdout", "stream-stderr", "crlf-false"] {
+        for at in [1usize, 2] {
+            let mut sim = base_sim(g.rng.next_u64());
+            let mut d = mk(&mut g, &mut sim, "rep/mixed.md", Format::Md, 3);
+            match which {
+                "stream-stdout" => d.tests[at].cfg.output_stream = Some(Stream::Stdout),
+                "stream-stderr" => d.tests[at].cfg.output_stream = Some(Stream::Stderr),
+                _ => d.tests[at].cfg.keep_crlf = Some(false),
+            }
+            let mut sc = Scenario {
+                lane: format!("report-bytes/md-compat-mixed/{}/at{}", which, at),
+                tier: Tier::Cli,
+                script_mode: false,
+                docs: vec![d],
+                cli: Cli { cram_compat: true, ..Default::default() },
+                sim,
+                pretty: false,
+                check: vec!["C05".into(), "C13".into(), "C20".into()],
+            };
+            fill_expectations(&mut sc, &mut g);
+            out.push(sc);
+        }
+    }
+    // a Cram document in front of a Markdown one: the Markdown one still runs per process, with
+    // its per-test settings
+    for what in ["strip-ansi", "keep-crlf", "stderr"] {
+        let mut sim = base_sim(g.rng.next_u64());
+        let first = mk(&mut g, &mut sim, "ord/a-first.t", Format::Cram, 2);
+        let mut second = mk(&mut g, &mut sim, "ord/b-second.md", Format::Md, 3);
+        for t in second.tests.iter_mut() {
+            match what {
+                "strip-ansi" => t.cfg.strip_ansi = Some(true),
+                "keep-crlf" => t.cfg.keep_crlf = Some(true),
+                _ => t.cfg.output_stream = Some(Stream::Stderr),
+            }
+        }
+        let third = mk(&mut g, &mut sim, "ord/c-third.cram", Format::Cram, 1);
+        let mut sc = Scenario {
+            lane: format!("report-bytes/cram-then-md/{}", what),
+            tier: Tier::Cli,
+            script_mode: false,
+            docs: vec![first, second, third],
+            cli: Cli::default(),
+            sim,
+            pretty: false,
+            check: vec!["C05".into(), "C13".into(), "C20".into()],
+        };
+        fill_expectations(&mut sc, &mut g);
+        out.push(sc);
+    }
     // defaults of the executing document and test cases that come from prepend / append
     for what in ["keep-crlf", "strip-ansi", "both", "none"] {
         for via in ["front", "cli"] {
@@ -1639,6 +1723,60 @@ pub fn lane_pairing(seed: u64) -> Vec<Scenario> {
                 };
                 fill_expectations(&mut sc, &mut g);
                 out.push(sc);
+            }
+        }
+    }
+    out
+}
+
+/// C14: a per-test limit given in the executing document's `defaults` also bounds the test
+/// cases that come from prepended / appended documents ("as if they were part of this document")
+pub fn lane_included_limits(seed: u64) -> Vec<Scenario> {
+    let mut out = vec![];
+    let mut g = G::new(seed ^ 0x1c1d);
+    for via in ["front", "cli"] {
+        for place in ["prepend", "append"] {
+            for fate in ["slow", "hang", "fast"] {
+                for own_defaults in [false, true] {
+                    let mut sim = base_sim(g.rng.next_u64());
+                    let slow = match fate {
+                        "slow" => Plan::new(Fate::Slow { ns: 10 * SEC }),
+                        "hang" => Plan::new(Fate::Hang),
+                        _ => Plan::new(Fate::Slow { ns: 500 * MS }),
+                    };
+                    let mk = |g: &mut G, sim: &mut SimScenario, path: &str, plans: &[Plan]| {
+                        let tests = plans.iter().map(|p| g.test(p, &mut sim.programs)).collect();
+                        doc(path, Format::Md, tests)
+                    };
+                    let mut main = mk(&mut g, &mut sim, "lim/main.md", &[Plan::new(Fate::Slow { ns: 300 * MS }), Plan::new(Fate::Pass)]);
+                    main.defaults.timeout_ns = Some(2 * SEC);
+                    let mut inc = mk(&mut g, &mut sim, "lim/shared.md", &[Plan::new(Fate::Pass), slow, Plan::new(Fate::Pass)]);
+                    inc.main = false;
+                    if own_defaults {
+                        // the included document's own defaults are read by the parser and win
+                        inc.defaults.timeout_ns = Some(4 * SEC);
+                    }
+                    let mut cli = Cli::default();
+                    match (via, place) {
+                        ("front", "prepend") => main.prepend.push("shared.md".into()),
+                        ("front", _) => main.append.push("shared.md".into()),
+                        (_, "prepend") => cli.prepend.push("lim/shared.md".into()),
+                        _ => cli.append.push("lim/shared.md".into()),
+                    }
+                    cli.relative_paths = via == "cli" && place == "append";
+                    let mut sc = Scenario {
+                        lane: format!("included-limits/{}/{}/{}/{}", via, place, fate, if own_defaults { "own-defaults" } else { "plain" }),
+                        tier: Tier::Cli,
+                        script_mode: false,
+                        docs: vec![main, inc],
+                        cli,
+                        sim,
+                        pretty: false,
+                        check: vec!["C14".into(), "C20".into(), "C05".into()],
+                    };
+                    fill_expectations(&mut sc, &mut g);
+                    out.push(sc);
+                }
             }
         }
     }
